@@ -2,7 +2,8 @@
 (* Trace validation for the registration of new thread contexts (C03): executions of the REAL backend thread and REAL      *)
 (* first log calls of new threads recorded by harness/h_stop in fine-grained mode. Contract: once the backend has run on    *)
 (* (several full loop iterations reading the newest values), every statement the new threads logged has been written (C03); *)
-(* in the flush variant each new thread then calls flush_log(), which must return while the backend keeps running (C06).   *)
+(* in the flush variant each new thread then calls flush_log(), which must return while the backend keeps running (C06);   *)
+(* in the stop variant Backend::stop() is called instead: when it returns the statements must have been written (C07).    *)
 EXTENDS Integers, Sequences, TLC, Json, IOUtils
 TraceLog == ndJsonDeserialize(IOEnv.TRACE)
 VARIABLES l, m
@@ -13,6 +14,8 @@ MStep(x, e) ==
   CASE e.e = "quiet" -> IF e.flushstuck > 0
                         THEN Fail(x, "flush_log() of a new thread does not return although the backend keeps running: its context was not picked up")
                         ELSE IF e.delivered >= e.zlogged THEN x
+                        ELSE IF e.stopped
+                        THEN Fail(x, "stop() returned while a statement a new thread had logged before the stop request was unwritten: its context was not picked up")
                         ELSE Fail(x, "a new thread's statement is never written: its context was not picked up by the backend")
     [] e.e = "crash" -> Fail(x, "the process crashed or hung")
     [] OTHER -> x
